@@ -86,12 +86,84 @@ def pure(org):
     return not any(o[0] in ("binop", "unop") for o in org)
 
 
+def rule_bindings_table(chk, cases):
+    """analyse_bindings of each exporter read as a table (c18.binding_cases: one-resource modules, every object type x
+    shape x bindless flag x bound/unbound, plus a constant buffer): the reflection entry exists exactly when the declaration
+    has an api slot, carries that slot's location and group and the declaration's bindless flag, descriptor_count is the
+    array length (None when unbounded, 1 when not an array), and the descriptor kind depends on the object type only,
+    alike on both targets, injectively, with the read/write kind kept. The shape rules below are the fallback."""
+    import c18
+    f = chk.facts
+    abs_ = {"hlsl": f.fn("analyse_bindings", "rssl_hlsl"), "msl": f.fn("analyse_bindings", "rssl_msl")}
+    kinds = {"hlsl": {}, "msl": {}}
+    for tgt in ("hlsl", "msl"):
+        bad = {}
+        n = 0
+        for oname, sname, bindless, bound, res in cases:
+            r = res[tgt]
+            what = "%s %s%s" % (sname, oname, " (bindless)" if bindless else "")
+            if r[0] == "Err":
+                continue
+            n += 1
+            if r[0] == "aborts":
+                bad.setdefault("registered-iff-bound", "analyse_bindings aborts on a %s %s resource (%s)" % ("bound" if bound else "unbound", what, r[1]))
+                continue
+            if bound != (r[0] == "Ok"):
+                bad.setdefault("registered-iff-bound", "a %s resource %s an api slot but %s reflection entry is registered" % (what, "with" if bound else "without", "no" if bound else "a"))
+                continue
+            if not bound:
+                continue
+            v = r[1]
+            if v["slot"] != ("Index", 5):
+                bad.setdefault("metadata-location", "a %s resource bound at Index(5) is reported at %s" % (what, v["slot"]))
+            if v["group"] != 2:
+                bad.setdefault("metadata-group", "a %s resource bound in set 2 is registered under group %s" % (what, v["group"]))
+            if v["bindless"] is not bindless:
+                bad.setdefault("bindless-flag", "a %s resource is reported with is_bindless = %s" % (what, v["bindless"]))
+            if v["count"] != c18.SHAPE_COUNT[sname]:
+                bad.setdefault("count", "a %s resource has descriptor_count %s, must be %s" % (what, v["count"], c18.SHAPE_COUNT[sname]))
+            kinds[tgt].setdefault(oname, set()).add(v["kind"])
+        for k in ("metadata-location", "metadata-group", "bindless-flag", "registered-iff-bound"):
+            chk.ob("C05.slot/%s/%s" % (tgt, k), k not in bad, bad.get(k) or {"metadata-location": "api_binding = the declaration's api slot location", "metadata-group": "registered under the api slot's set",
+                   "bindless-flag": "is_bindless copied from the declaration", "registered-iff-bound": "metadata entry exists exactly when the declaration has an api slot"}[k],
+                   where(abs_[tgt]), sample={"target": tgt, "cases": n})
+        chk.ob("C05.count/%s" % tgt, "count" not in bad, bad.get("count") or "descriptor_count = array length, None when unbounded, Some(1) otherwise", where(abs_[tgt]), sample={"target": tgt, "cases": n})
+        chk.floor("C05.floor/%s/binding-cases" % tgt, n, 150 if tgt == "hlsl" else 100, "declarations evaluated", where(abs_[tgt]))
+    hk, mk = kinds["hlsl"], kinds["msl"]
+    names = sorted((set(hk) | set(mk)) - {"<cbuffer>"})
+    for o in names:
+        key = "<non-object>" if o == "<scalar>" else o
+        h, m = hk.get(o), mk.get(o)
+        one = all(x is None or len(x) == 1 for x in (h, m))
+        ok = one and (h is None or m is None or h == m)
+        chk.ob("C05.type/%s" % key, ok, "%s -> %s in both exporters, whatever the array shape" % (key, sorted(h or m)[0][0]) if ok else
+               ("descriptor type of %s differs: HLSL %s, MSL %s" % (key, sorted(h or ()), sorted(m or ())) if one else "descriptor type of %s depends on the array shape or qualifiers: HLSL %s, MSL %s" % (key, sorted(h or ()), sorted(m or ()))),
+               where(abs_["msl"]), sample={"object": key})
+    vals = [sorted(hk[o])[0] for o in names if o != "<scalar>" and hk.get(o)]
+    chk.ob("C05.type/injective", len(vals) == len(set(vals)), "distinct object kinds have distinct descriptor types" if len(vals) == len(set(vals)) else
+           "two object kinds share a descriptor type: %s" % sorted(v for v in set(vals) if vals.count(v) > 1), where(abs_["hlsl"]))
+    for o in names:
+        if o == "<scalar>" or not hk.get(o):
+            continue
+        v = sorted(hk[o])[0][0]
+        ok = o.startswith("RW") == v.startswith("Rw")
+        chk.ob("C05.type/rw/%s" % o, ok, "read/write kind preserved" if ok else "%s is described as %s (read/write mismatch)" % (o, v), where(abs_["hlsl"]))
+    chk.floor("C05.floor/descriptor-types", len(names), 21, "object kinds with a descriptor type")
+
+
 def run(chk):
     f = chk.facts
     tables = {}
+    import c18
+    cases = c18.binding_cases(f)
+    evaluated = not isinstance(cases, str)
+    if evaluated:
+        rule_bindings_table(chk, cases)
+    else:
+        chk.note("C05: %s: the shape rules decide" % cases)
     for crate, tgt in (("rssl_hlsl", "hlsl"), ("rssl_msl", "msl")):
         ab = chk.anchor("C05.anchor/%s/analyse_bindings" % tgt, f.fn("analyse_bindings", crate), "%s analyse_bindings" % tgt)
-        if not ab:
+        if not ab or evaluated:
             continue
         tr = TF.Tracer(f, max_depth=2, no_inline=NAMEMAP + ("get_global_name", "get_constant_buffer_name"), through_casts=True)
         binds = [a for a in F.exprs(ab["thir"], "Adt") if short(a["adt"]) == "DescriptorBinding"]
